@@ -50,3 +50,11 @@ Inductive FormatNode := FormatNode_Skip | FormatNode_NotInRange | FormatNode_Nor
 Record FormatRange := { start : option nat; end_ : option nat }.
 Record Position := { bytes : nat }.
 Record NodePos := { start_position : option Position; end_position : option Position }.
+
+(* the option-dependent creators of src/context.rs: whitespace tokens as (kind, count), the configuration enums *)
+Inductive LineEndings := LineEndings_Unix | LineEndings_Windows.
+Inductive IndentType := IndentType_Tabs | IndentType_Spaces.
+Inductive SpaceAfterFunctionNames := SpaceAfterFunctionNames_Never | SpaceAfterFunctionNames_Definitions | SpaceAfterFunctionNames_Calls | SpaceAfterFunctionNames_Always.
+Inductive CallParenType := CallParenType_Always | CallParenType_NoSingleString | CallParenType_NoSingleTable | CallParenType_None | CallParenType_Input.
+Inductive WsToken := TokenType_tabs (n : nat) | TokenType_spaces (n : nat).
+Definition Token_new (t : WsToken) : WsToken := t.
